@@ -17,6 +17,7 @@ import (
 	"sort"
 	"strconv"
 	"strings"
+	"sync"
 	"time"
 
 	"github.com/google/pprof/internal/graph"
@@ -520,6 +521,54 @@ func runBigDot(c *harness.Ctx) harness.Result {
 	return res
 }
 
+// part samewrite: one profile serialized by several goroutines at once (two clients downloading
+// it, a copy taken while it is written): every serialization is the bytes of a lone one.
+func runSameWrite(c *harness.Ctx) harness.Result {
+	r := c.Rng
+	p := TieProfile(r)
+	var lone, loneZ bytes.Buffer
+	p.WriteUncompressed(&lone)
+	p.Write(&loneZ)
+	res := harness.Result{NonTrivial: true, Sig: fmt.Sprint("samewrite", gen.Shape(p)), Sample: "8 goroutines x 25 serializations of one profile"}
+	var wg sync.WaitGroup
+	bad := make([]string, 8)
+	for g := 0; g < 8; g++ {
+		wg.Add(1)
+		go func(g int) {
+			defer wg.Done()
+			for k := 0; k < 25 && bad[g] == ""; k++ {
+				var b bytes.Buffer
+				switch (g + k) % 3 {
+				case 0:
+					p.WriteUncompressed(&b)
+					if !bytes.Equal(b.Bytes(), lone.Bytes()) {
+						bad[g] = fmt.Sprintf("WriteUncompressed while others serialize the same profile wrote %d bytes that differ from the %d bytes of a lone write", b.Len(), lone.Len())
+					}
+				case 1:
+					p.Write(&b)
+					if !bytes.Equal(b.Bytes(), loneZ.Bytes()) {
+						bad[g] = fmt.Sprintf("Write while others serialize the same profile wrote %d bytes that differ from the %d bytes of a lone write", b.Len(), loneZ.Len())
+					}
+				default:
+					p.Copy().WriteUncompressed(&b)
+					if !bytes.Equal(b.Bytes(), lone.Bytes()) {
+						bad[g] = fmt.Sprintf("a Copy taken while others serialize the same profile serializes to %d bytes that differ from the %d bytes of a lone write", b.Len(), lone.Len())
+					}
+				}
+			}
+		}(g)
+	}
+	wg.Wait()
+	c.Stat("concurrent_serializations", 200)
+	for _, b := range bad {
+		if b != "" {
+			res.Verdict, res.Detail = harness.Violated, b
+			return res
+		}
+	}
+	return res
+}
+
 func runSession(c *harness.Ctx) harness.Result {
 	r := c.Rng
 	p := TieProfile(r)
@@ -749,6 +798,7 @@ func init() {
 			{Name: "session", Quick: 150, Thor: 5000, Run: runSession},
 			{Name: "fetchorder", Quick: 100, Thor: 5000, Run: runFetchOrder},
 			{Name: "bigdot", Quick: 60, Thor: 3000, Run: runBigDot},
+			{Name: "samewrite", Quick: 60, Thor: 3000, Run: runSameWrite},
 		},
 		MinNonTrivial: func(string) int { return 300 },
 	})
